@@ -35,7 +35,16 @@ type Sorts struct {
 
 func NewSorts() *Sorts {
 	return &Sorts{structs: map[string]*StructInfo{}, tparams: map[string]bool{}, typeIDs: map[string]int{}, boxed: map[Sort]bool{},
-		qualifier: func(p *types.Package) string { return p.Name() }}
+		qualifier: func(p *types.Package) string {
+			// packages of the module are known by their (disambiguated) name, everything else by its path
+			if strings.HasPrefix(p.Path(), "github.com/grafana/cog") {
+				return pkgID(p)
+			}
+			if !strings.Contains(p.Path(), "/") {
+				return p.Path()
+			}
+			return p.Path()
+		}}
 }
 
 func q(s string) string {
